@@ -71,6 +71,11 @@ def cases(tier):
             for rk in ("sync", "async"):
                 yield {"kind": "stream", "sel": "tick(step: $s)", "vardefs": "($s: Int = 3)", "variables": variables,
                        "custom": {"Subscription.tick": "async"}, "n": n, "mode": "deferred", "resolver": rk}
+    # several subscription operations in one document, selected by name
+    for n in (1, 2):
+        for opname in ("Second", "First"):
+            yield {"kind": "stream", "sel": "ev { x }", "doc": "subscription First { ev { id } } subscription Second { ev { x } } query Other { a }" if opname == "Second" else "subscription First { ev { x } } subscription Second { tick } ",
+                   "operation_name": opname, "custom": {"Obj.x": "async"}, "n": n, "mode": "deferred", "resolver": "sync"}
     # a null event is an event like any other; a source object that is falsy is still a source
     for n in range(1, min(b["events"], 3) + 1):
         for k in range(n):
@@ -139,13 +144,13 @@ def _schema(custom, rk, sdl="full"):
         if rk == "sync":
 
             def sub(root, ctx, info, **args):
-                ctx.ev("subscribe")
+                ctx.ev("subscribe", root, dict(args))
                 return ctx.source
 
         else:
 
             async def sub(root, ctx, info, **args):
-                ctx.ev("subscribe")
+                ctx.ev("subscribe", root, dict(args))
                 await ctx.loop.defer("subscribe", lambda: None)
                 return ctx.source
 
@@ -179,14 +184,21 @@ def _body(case, overrides, ch):
     schema = _schema(case["custom"], case["resolver"], case.get("sdl", "full"))
     dkey = (case["sel"], case.get("vardefs", ""))
     doc = _DOCS.get(dkey)
+    if case.get("doc"):
+        dkey = case["doc"]
+        doc = _DOCS.get(dkey)
     if doc is None:
-        doc = _DOCS[dkey] = parse("subscription %s { %s }" % (case.get("vardefs", ""), case["sel"]))
+        doc = _DOCS[dkey] = parse(case.get("doc") or ("subscription %s { %s }" % (case.get("vardefs", ""), case["sel"])))
     rt = AsyncIORuntime(loop=loop, execute_blocking_functions_in_thread=False)
 
+    kept = []
+
     async def main():
-        stream = await subscribe(schema, doc, runtime=rt, context_value=world, variables=case.get("variables"))
+        stream = await subscribe(schema, doc, runtime=rt, context_value=world, variables=case.get("variables"),
+                                 initial_value=INITIAL, operation_name=case.get("operation_name"))
         out = []
         async for res in stream:
+            kept.append(res)
             out.append(_obs_result(res))
         return out
 
@@ -194,11 +206,24 @@ def _body(case, overrides, ch):
         status, value = loop.drive(main(), ch)
     finally:
         loop.finish()
+    subs = [e for e in world.log if e[0] == "subscribe"]
     return {"status": status, "results": value if status == "ok" else None, "exc": repr(value) if status == "exc" else None,
-            "pulls": world.source.pulls, "trace": loop.trace}, world
+            "pulls": world.source.pulls, "trace": loop.trace,
+            # results observed again after the stream ended: a yielded result must not change afterwards
+            "results_at_end": [_obs_result(r) for r in kept] if status == "ok" else None,
+            "subscribe_calls": [[e[1] is INITIAL, e[2]] for e in subs]}, world
 
 
 _DOCS = {}
+INITIAL = {"marker": "initial-value"}
+
+
+def _expected_sub_args(case):
+    if "tick(step: $s)" in case["sel"]:
+        return {"step": (case.get("variables") or {}).get("s", 3)}
+    if case["sel"].startswith("tick"):
+        return {"step": 1}
+    return {}
 
 
 def _reference(case, overrides):
@@ -273,6 +298,21 @@ def _compare(obs, ref, n):
             return ("foreign-error" if extra else "missing-error"), "event %d: errors %s expected %s" % (k, got[1], want[1])
     if obs["pulls"] != n + 1:
         return "source-pulls", "source pulled %d times for %d events" % (obs["pulls"], n)
+    if obs.get("results_at_end") is not None and obs["results_at_end"] != res:
+        return "result-changed-after-yield", "results when yielded %s, after the stream ended %s" % (res, obs["results_at_end"])
+    return None, None
+
+
+def _compare_subscribe(obs, case):
+    calls = obs.get("subscribe_calls")
+    if obs["status"] != "ok" or calls is None:
+        return None, None
+    if len(calls) != 1:
+        return "subscription-resolver-calls", "subscription resolver called %d times" % len(calls)
+    if not calls[0][0]:
+        return "initial-value-not-forwarded", "subscription resolver did not receive the initial value as root"
+    if calls[0][1] != _expected_sub_args(case):
+        return "subscription-arguments", "subscription resolver got %s expected %s" % (calls[0][1], _expected_sub_args(case))
     return None, None
 
 
@@ -353,6 +393,8 @@ def check_case(case, st):
             if case["n"] >= 2:
                 st.nt((case.get("sdl", "full"), case.get("none_at"), json.dumps(case.get("variables")), case["sel"], sorted(case["custom"].items()), case["n"], case["mode"], case["resolver"], sorted(ov.items()), choices))
             cls, detail = _compare(obs, ref, case["n"])
+            if not cls:
+                cls, detail = _compare_subscribe(obs, case)
             st.outcome((cls, json.dumps(obs["results"])))
             if cls:
                 bad += 1
@@ -376,4 +418,6 @@ def replay(w):
     ref = _reference(case, ov)
     obs = run_once(lambda ch: _body(case, ov, ch), w["choices"])[1][0]
     cls, detail = _compare(obs, ref, case["n"])
+    if not cls:
+        cls, detail = _compare_subscribe(obs, case)
     return [(cls, detail)] if cls else []
